@@ -109,6 +109,20 @@ CHECKS = {
          "Trusts vlib/ref_ig.py (table fixpoint, not Aho's marking); intersection clause kept tiny because the library's marking is exponential "
          "(rare 20 s watchdog hits are reported as inconclusive).",
          "DESIGN.md section 4, C17"),
+ "C18": (PBT + " (union-find graph unification; ground instantiation of feature grammars into a plain CFG)",
+         "Pairs of consistently typed feature structures with re-entrancy: unify succeeds iff the reference finds no clash, the receiver then has exactly "
+         "the reference paths, values and sharing partition, argument order does not matter, a clash raises FeatureStructuresNotCompatibleException. "
+         "Feature grammars in text form (constants, variables, omitted features, epsilon productions, left recursion, same-skeleton productions, | "
+         "alternatives): contains(w) on all words <=4 equals membership in the ground instantiation; feature-free grammars agree with CFG.contains. Exploration.",
+         "Trusts vlib/ref_fs.py; one value domain {u,v} for all features; structures of depth <=3.",
+         "DESIGN.md section 4, C18"),
+ "C20": (PBT + " (structural round-trip equality on extracted descriptions; exact language equality for recursive-automaton boxes)",
+         "Automata, PDAs and transducers over JSON-representable values (odd strings, floats, names like starting_q / INITIAL_STACK_HIDDEN, isolated "
+         "states, parallel edges, multi-symbol pushes/outputs): from_networkx(to_networkx(x)) has the same states, marking, transitions and start stack "
+         "symbol; CFG.from_text(to_text()) has the same productions and bounded language incl. VAR:/TER: markers; RecursiveAutomaton.from_ebnf / "
+         "from_regex give one deterministic box per head, exactly equivalent to the reference union of its right-hand sides. Exploration.",
+         "Trusts the extraction helpers and vlib/ref_regex.py; values restricted to the property's domain.",
+         "DESIGN.md section 4, C20"),
 }
 NOT_APPLICABLE = {}
 
